@@ -16,9 +16,12 @@ UNMAPPED = "unmapped"
 RAM = "ram"
 
 
-def _rng(ident, lo, hi, win, size, ram=False, base=None, kind="primary"):
+def _rng(ident, lo, hi, win, size, ram=False, base=None, kind="primary", wlo=None):
+    # win: what is subtracted in the offset formula; wlo: first address visible in the bank window.
+    # They differ only for a user mapping that shows the upper half of a 64K bank (HiROM system area,
+    # banks 00-3F:8000-FFFF): the position inside the bank's file image is then addr mod 64K.
     return {"id": ident, "lo": lo, "hi": hi, "win": win, "size": size, "ram": ram,
-            "base": lo if base is None else base, "kind": "ram" if ram else kind}
+            "base": lo if base is None else base, "kind": "ram" if ram else kind, "wlo": win if wlo is None else wlo}
 
 
 def lorom() -> list[dict]:
@@ -46,11 +49,12 @@ def from_map_directives(maps: list[dict]) -> list[dict]:
         lo, hi = m["bank_range"]
         size = m["mask"]
         win = 0x8000 if size == 0x8000 else 0
+        wlo = m["addr_range"][0]
         ram = bool(m.get("writable"))
-        cfg.append(_rng(str(m["identifier"]), lo, hi, win, size, ram=ram))
+        cfg.append(_rng(str(m["identifier"]), lo, hi, win, size, ram=ram, wlo=wlo))
         mir = m.get("mirror_bank_range")
         if mir:
-            cfg.append(_rng(str(m["identifier"]) + "_mirror", mir[0], mir[1], win, size, ram=ram, kind="mirror"))
+            cfg.append(_rng(str(m["identifier"]) + "_mirror", mir[0], mir[1], win, size, ram=ram, kind="mirror", wlo=wlo))
     return cfg
 
 
@@ -68,7 +72,7 @@ def find(cfg: list[dict], addr: int) -> dict | None:
 
 
 def in_window(r: dict, addr: int) -> bool:
-    return (addr & 0xFFFF) >= r["win"]
+    return (addr & 0xFFFF) >= r["wlo"]
 
 
 def offset(cfg: list[dict], addr: int):
@@ -102,7 +106,7 @@ def advance(cfg: list[dict], addr: int, n: int):
         return None
     res = (bank << 16) | (r["win"] + off % r["size"])
     r2 = find(cfg, res)
-    if r2 is None or r2["id"] != r["id"]:
+    if r2 is None or r2["id"] != r["id"] or not in_window(r, res):
         return None
     return res
 
